@@ -8,6 +8,8 @@ import (
 	"fmt"
 	"math/big"
 	"math/rand"
+	"regexp"
+	"strconv"
 	"time"
 
 	abci "github.com/cometbft/cometbft/abci/types"
@@ -70,6 +72,7 @@ type RelTx struct {
 	Vid   int
 	Votes *relayertypes.Votes
 	Msg   sdk.Msg // the message itself (voted messages): a withheld vote is submitted later, unchanged
+	Parts []*RelTx // a transaction with several messages: the single-message transactions it was merged from (their events describe the messages)
 	BEv   string  // bridge-trace event (hashes | pubkey | deposits | process | replace | finalize | approve | other)
 	BF    Ev
 }
@@ -310,6 +313,42 @@ func (s *Session) RunBlock(p *BlockPlan) (*BlockResult, error) {
 		s.emit(s.RelW, "el", Ev{"adds": adds, "removes": rms, "ok": res.TxResults[0].Code == 0, "idle": bridgeIdle, "log": short(res.TxResults[0].Log)})
 		for i, t := range p.Txs {
 			r := res.TxResults[i+1]
+			if len(t.Parts) > 0 {
+				// all-or-nothing: the messages before the failing one ran (and succeeded), the failing one is reported with its
+				// index, the ones after it never ran; on success every message succeeded
+				failed := len(t.Parts)
+				if r.Code != 0 {
+					failed = failedMsgIndex(r.Log)
+					if failed < 0 || failed >= len(t.Parts) {
+						return nil, fmt.Errorf("multi-message transaction failed outside its messages: %s", r.Log)
+					}
+				}
+				s.emit(s.RelW, "txbegin", Ev{"n": len(t.Parts)})
+				for j, pt := range t.Parts {
+					if j > failed {
+						break
+					}
+					pt.F["ok"] = j < failed
+					pt.F["log"] = ""
+					if j == failed {
+						pt.F["log"] = short(r.Log)
+					}
+					if pt.Vid != 0 {
+						pt.F["vid"] = pt.Vid
+					}
+					s.emit(s.RelW, pt.Ev, pt.F)
+				}
+				s.emit(s.RelW, "txend", Ev{"ok": r.Code == 0})
+				if r.Code == 0 {
+					for _, pt := range t.Parts {
+						if pt.Sig != nil {
+							s.rdao = goatcrypto.SHA256Sum(s.rdao, pt.Sig)
+							s.rdaoLog = append(append([]int{}, s.rdaoLog...), pt.Vid)
+						}
+					}
+				}
+				continue
+			}
 			t.F["ok"] = r.Code == 0
 			t.F["log"] = short(r.Log)
 			if t.Vid != 0 {
@@ -499,3 +538,34 @@ func hash32(parts ...[]byte) []byte {
 }
 
 var _ = bytes.Equal
+
+
+var msgIndexRe = regexp.MustCompile(`message index: (\d+)`)
+
+// failedMsgIndex extracts the index of the failing message from a transaction log ("failed to execute message; message index: 1: ...").
+func failedMsgIndex(log string) int {
+	m := msgIndexRe.FindStringSubmatch(log)
+	if m == nil {
+		return -1
+	}
+	n, _ := strconv.Atoi(m[1])
+	return n
+}
+
+// MergeTxs turns the given single-message transactions of one signer into ONE transaction carrying all their messages (signed
+// with the account sequence `seq`).
+func (s *Session) MergeTxs(priv cryptotypes.PrivKey, parts []*RelTx, seq uint64) (*RelTx, error) {
+	var msgs []sdk.Msg
+	for _, p := range parts {
+		tx, err := s.C.TxCfg.TxDecoder()(p.Bytes)
+		if err != nil {
+			return nil, err
+		}
+		msgs = append(msgs, tx.GetMsgs()...)
+	}
+	bz, err := s.C.SignTx(priv, msgs, sim.SignOpts{Seq: &seq})
+	if err != nil {
+		return nil, err
+	}
+	return &RelTx{Bytes: bz, Ev: "multi", F: Ev{}, Parts: parts}, nil
+}
